@@ -248,7 +248,7 @@ def run(ctx, report: Report) -> None:
         r3.instance({'class': c, 'defines___eq__': has_eq}, key=c + '-eq')
 
     # ---- R4 --------------------------------------------------------------------------------------------------
-    r4 = report.rule('C15-R4', 'cache key completeness and pass-through guards', floor=12)
+    r4 = report.rule('C15-R4', 'cache key completeness and pass-through guards', floor=14)
     imod, cfn = src.func('__init__.compile')
     pmod, cached = src.func('css_parser._cached_css_compile')
     decos = [d for d in cached.decorator_list if isinstance(d, ast.Call) and call_name(d).endswith('lru_cache')]
